@@ -9,6 +9,7 @@
 //
 //	wkb  x<hex>             wkb.Decode(bytes)
 //	wkbr <k> x<hex>         wkb.Read(reader that returns at most k bytes per call, not a bytes.Buffer)
+//	wkbs <E|D|U|C|X>[z] <k> x<hex>  wkb.Read(scripted reader: pieces, empty reads, then a sticky error; see scriptReader)
 //	hex  s<hex>             hex.Decode(string(bytes))
 //	json x<hex>             geojson.Decode(bytes)
 //	gj   <T> <goval>        geojson.FromGeoJSON(&Geometry{Type, Coordinates}); T = s<hex> | NILPTR
@@ -64,8 +65,12 @@ func errClass(err error) string {
 		return "unsupported"
 	case errors.As(err, &re):
 		return "runtime"
-	case errors.As(err, &he) || err == hex.ErrLength:
-		return "hex"
+	case err == errReader:
+		return "reader"
+	case errors.As(err, &he):
+		return fmt.Sprintf("hexbyte:%02x", byte(he))
+	case err == hex.ErrLength:
+		return "hexlen"
 	case strings.HasPrefix(err.Error(), "invalid byte order"):
 		return "order"
 	case strings.HasPrefix(err.Error(), "unsupported geometry type"):
@@ -96,6 +101,54 @@ func (s *slowReader) Read(p []byte) (int, error) {
 	}
 	copy(p, s.b[:n])
 	s.b = s.b[n:]
+	return n, nil
+}
+
+// scriptReader delivers b in pieces (sizes cycle through k, 1, 2k; with `zero` every third call is
+// an empty read `(0, nil)`), then fails for ever (a sticky error) with
+//
+//	E  (0, io.EOF)                      D  io.EOF together with the last piece
+//	U  (0, io.ErrUnexpectedEOF)         C  (0, errReader)        X  errReader together with the last piece
+type scriptReader struct {
+	b     []byte
+	k     int
+	zero  bool
+	end   byte
+	calls int
+}
+
+var errReader = errors.New("c07: the reader failed")
+
+func (s *scriptReader) fail() error {
+	switch s.end {
+	case 'C', 'X':
+		return errReader
+	case 'U':
+		return io.ErrUnexpectedEOF
+	}
+	return io.EOF
+}
+
+func (s *scriptReader) Read(p []byte) (int, error) {
+	s.calls++
+	if len(s.b) == 0 {
+		return 0, s.fail()
+	}
+	if s.zero && s.calls%3 == 0 {
+		return 0, nil
+	}
+	n := []int{s.k, 1, 2 * s.k}[s.calls%3]
+	if n > len(p) {
+		n = len(p)
+	}
+	if n > len(s.b) {
+		n = len(s.b)
+	}
+	copy(p, s.b[:n])
+	s.b = s.b[n:]
+	if len(s.b) == 0 && (s.end == 'D' || s.end == 'X') {
+		return n, s.fail()
+	}
 	return n, nil
 }
 
@@ -145,6 +198,12 @@ func runCase(line string) (res string) {
 		k := p.Int()
 		buf := mustHex(p.Next()[1:])
 		rd := &slowReader{b: buf, k: k}
+		call = func() (geom.Geom, error) { return wkb.Read(rd) }
+	case "wkbs":
+		mode := p.Next()
+		k := p.Int()
+		buf := mustHex(p.Next()[1:])
+		rd := &scriptReader{b: buf, k: k, end: mode[0], zero: strings.HasSuffix(mode, "z")}
 		call = func() (geom.Geom, error) { return wkb.Read(rd) }
 	case "hex":
 		s := string(mustHex(p.Next()[1:]))
@@ -230,6 +289,8 @@ func worker() {
 			"01030000000100000001000000000000000000f03f0000000000000040010400000001000000010100000000000000000000000000000000000000" +
 			"010500000001000000010200000000000000010600000001000000010300000000000000010700000000000000",
 		"wkbr 3 x000000000200000001" + "3ff00000000000004000000000000000",
+		"wkbs Xz 3 x000000000200000001" + "3ff00000000000004000000000000000",
+		"wkbs C 2 x0000000002000000",
 		"hex s3031303130303030303030303030303030303030663033663030303030303030303030303030343020",
 		"json x7b2274797065223a224d756c7469506f6c79676f6e222c22636f6f7264696e61746573223a5b5b5b5b312c325d5d5d5d2c2278223a7b2261223a6e756c6c7d7d",
 		"json x7b2274797065223a22506f696e74222c22636f6f7264696e61746573223a5b312c5d7d",
